@@ -155,13 +155,16 @@ class LoopSpec:
                     for k3, v3, s3 in I.exec_block(stmt.body, s2):
                         if k3 in ("next", "continue"):
                             self._frame_check(I, before, s3, allowed, fresh_from)
+                            if self.step is not None:
+                                # per-iteration postcondition: evaluated with the loop variable still at this iteration's value
+                                if is_for:
+                                    s3.env[stmt.target.id] = kcur
+                                for t, s4 in self._eval_bool(I, self.step, s3.fork()):
+                                    s3.side.append((f"loop_step:{self.name}", list(s4.pc), t))
                             if is_for:
                                 s3.env[stmt.target.id] = kcur + 1
                             for t, s4 in self._eval_bool(I, self.inv, s3.fork()):
                                 s3.side.append((f"loop_inv_preserved:{self.name}", list(s4.pc), t))
-                            if self.step is not None:
-                                for t, s4 in self._eval_bool(I, self.step, s3.fork()):
-                                    s3.side.append((f"loop_step:{self.name}", list(s4.pc), t))
                             if self.variant is not None:
                                 va = self._call_spec(I, self.variant, s3.fork())
                                 for k5, v5, s5 in va:
